@@ -360,6 +360,31 @@ Section EmbedProofs.
     - apply vinv_vrep.
   Qed.
 
+  Lemma ravel_mzero n d : ravel n d (@mzero F _ n d) = mzero (n * d) 1.
+  Proof.
+    unfold ravel, mzero at 2. apply mk_ext. intros i j Hi Hj.
+    unfold mzero. rewrite mget_mk by (apply div_lt_mul || apply mod_lt_mul with (n := n); assumption).
+    reflexivity.
+  Qed.
+
+  (* the correction step (Bayes' rule on an observation) embeds: observed
+     marginal and corrected state of the dense model are the embeddings of the
+     isotropic ones *)
+  Theorem bayes_rule_embed nin nout d (K : @cond F) (data : mat) (rv obs upd obsD updD : @normal F) :
+    bayes_rule minv nin nout d K data rv = Some (obs, upd) ->
+    bayes_rule minv (nin * d) (nout * d) 1 (embed_cond nin nout d K) (ravel nout d data)
+               (embed_normal nin d rv) = Some (obsD, updD) ->
+    obsD = embed_normal nout d obs /\ updD = embed_normal nin d upd.
+  Proof.
+    unfold bayes_rule. intros H1 H2.
+    destruct (c_revert minv nin nout d K rv) as [[o b]|] eqn:E1; [|discriminate].
+    destruct (c_revert minv (nin * d) (nout * d) 1 (embed_cond nin nout d K) (embed_normal nin d rv))
+      as [[oD bD]|] eqn:E2; [|discriminate].
+    destruct (c_revert_embed nin nout d K rv o b oD bD E1 E2) as [Ho Hb]. subst oD bD.
+    inversion H1; subst obs upd. inversion H2; subst obsD updD. clear H1 H2.
+    split; [reflexivity|]. apply c_apply_embed.
+  Qed.
+
   (* =================================================================
      T14.b  the dense IWP transition is the embedding of the 1-d transition
      (all base scales equal; the isotropic transition uses base2 * out2) *)
@@ -400,6 +425,103 @@ Section EmbedProofs.
     - exfalso. apply Hq. subst col. rewrite div_pd_r by assumption. reflexivity.
     - exfalso. apply Hm. subst col. rewrite mod_pd_r by assumption. reflexivity.
     - exfalso. apply Hm. subst col. rewrite mod_pd_r by assumption. reflexivity.
+  Qed.
+
+  (* =================================================================
+     T14.e  one uncalibrated TS0 filter step of the dense model is the embedding
+     of the isotropic step (prediction, linearisation, correction) *)
+  Lemma coeff_embed q d (rv : @normal F) i a : i < S q -> a < d ->
+    coeff (mkShape Dense q d) [embed_normal (S q) d rv] i a = coeff (mkShape Iso q d) [rv] i a.
+  Proof.
+    intros Hi Ha. unfold coeff, nth_normal, embed_normal; cbn [sh_kind sh_d nth n_mean].
+    apply mget_ravel_pd; assumption.
+  Qed.
+
+  Lemma ode_env_embed q d (o : @odeP F) (rv : @normal F) (t : F) :
+    ode_k o <= S q ->
+    ode_env (mkShape Dense q d) o [embed_normal (S q) d rv] t = ode_env (mkShape Iso q d) o [rv] t.
+  Proof.
+    intro Hk. unfold ode_env; cbn [sh_d]. f_equal. apply map_ext_in. intros idx Hin.
+    apply in_seq in Hin.
+    assert (Hidx : idx < S q * d) by nia.
+    apply coeff_embed; [apply div_lt_mul; exact Hidx|apply mod_lt_mul with (n := S q); exact Hidx].
+  Qed.
+
+  Lemma f_eval_embed q d (o : @odeP F) (rv : @normal F) (t : F) a :
+    ode_k o <= S q ->
+    f_eval (mkShape Dense q d) o [embed_normal (S q) d rv] t a = f_eval (mkShape Iso q d) o [rv] t a.
+  Proof. intro Hk. unfold f_eval. rewrite ode_env_embed by exact Hk. reflexivity. Qed.
+
+  Theorem linearize_ts0_embed q d (o : @odeP F) (damp2 : F) (rv : @normal F) (t : F) :
+    ode_k o <= S q ->
+    linearize (mkShape Dense q d) o TS0 damp2 [embed_normal (S q) d rv] t
+    = map (embed_cond (S q) 1 d) (linearize (mkShape Iso q d) o TS0 damp2 [rv] t).
+  Proof.
+    intro Hk. unfold linearize; cbn [sh_kind sh_q sh_d sh_N map].
+    unfold from_linop_and_noise, embed_cond; cbn [c_A c_b c_Q c_tl c_to n_mean n_cov].
+    f_equal. f_equal.
+    - pose proof (ts0_selector_is_embedding q d (ode_k o)) as E.
+      unfold kronI in *. rewrite Nat.mul_1_l in *. exact E.
+    - unfold ravel. rewrite Nat.mul_1_l. apply mk_ext. intros r j Hr Hj.
+      rewrite (Nat.div_small r d Hr), (Nat.mod_small r d Hr).
+      rewrite mget_mk by (lia || assumption). rewrite f_eval_embed by exact Hk. reflexivity.
+    - unfold kronI, noise_cov. rewrite Nat.mul_1_l. apply mk_ext. intros i j Hi Hj.
+      rewrite (Nat.div_small i d Hi), (Nat.mod_small i d Hi), (Nat.div_small j d Hj), (Nat.mod_small j d Hj).
+      rewrite mget_mk by lia. simpl. destruct (Nat.eqb i j); reflexivity.
+    - unfold vrep, vones at 1. apply mkv_ext. intros i Hi.
+      rewrite vget_vones by (apply div_lt_mul; exact Hi). reflexivity.
+    - unfold vrep, vones at 1. rewrite Nat.mul_1_l. apply mkv_ext. intros i Hi.
+      rewrite (Nat.div_small i d Hi). rewrite vget_vones by lia. reflexivity.
+  Qed.
+
+  (* prediction + TS0 linearisation + correction on the marginal (what
+     solver_step does for the filter / uncalibrated solver, see
+     solver_step_is_ts0_filter_step) *)
+  Definition ts0_filter_step (sh : shape) (o : @odeP F) (damp2 : F) (base2 : vec) (dt t' : F)
+             (u : @fnormal F) : option (@fnormal F * @fnormal F) :=
+    let tr := transition sh base2 dt (ones sh) in
+    let pred := f_marg sh tr u in
+    let fx := linearize sh o TS0 damp2 pred t' in
+    correct minv sh fx pred.
+
+  Lemma solver_step_is_ts0_filter_step (cf : @config F) (st : @sstate F) (dt : F) :
+    cf_calib cf = CalNone -> cf_strat cf = Filter -> cf_lin cf = TS0 ->
+    option_map (fun s' => st_u s') (solver_step minv cf st dt)
+    = option_map snd (ts0_filter_step (cf_shape cf) (cf_ode cf) (cf_damp2 cf) (cf_base2 cf) dt
+                                      (st_t st + dt) (p_marg (st_post st))).
+  Proof.
+    intros Hc Hs Hl. unfold solver_step, ts0_filter_step. rewrite Hc, Hs, Hl.
+    cbn [predict p_marg].
+    destruct (correct minv (cf_shape cf) _ _) as [[obs upd]|]; reflexivity.
+  Qed.
+
+  Theorem dense_ts0_filter_step_is_embedded_isotropic_step
+          q d (o : @odeP F) (damp2 : F) (base2D base2I : vec) (dt t' : F) (rv : @normal F)
+          (obs upd obsD updD : @fnormal F) :
+    ode_k o <= S q ->
+    (forall a, a < d -> vget base2D a = vget base2I 0) ->
+    ts0_filter_step (mkShape Iso q d) o damp2 base2I dt t' [rv] = Some (obs, upd) ->
+    ts0_filter_step (mkShape Dense q d) o damp2 base2D dt t' [embed_normal (S q) d rv] = Some (obsD, updD) ->
+    obsD = map (embed_normal 1 d) obs /\ updD = map (embed_normal (S q) d) upd.
+  Proof.
+    intros Hk Hb HI HD. unfold ts0_filter_step in HI, HD.
+    unfold transition, ones in HI, HD; cbn [sh_kind sh_q sh_d sh_blocks seq map nth] in HI, HD.
+    rewrite (iwp_transition_dense_is_embedding q d base2D (vget base2I 0) dt 1 Hb) in HD.
+    unfold f_marg in HI, HD; cbn [sh_N sh_c sh_kind sh_q sh_d map2] in HI, HD.
+    rewrite c_marg_embed in HD.
+    set (pred := c_marg (S q) (S q) d (iwp_transition_1d q d dt (vget base2I 0 * 1)) rv) in *.
+    rewrite (linearize_ts0_embed q d o damp2 pred t' Hk) in HD.
+    unfold linearize in HI, HD; cbn [sh_kind sh_q sh_d map] in HI, HD.
+    set (K := from_linop_and_noise (S q) 1 _ _) in *.
+    unfold correct in HI, HD; cbn [sh_N sh_nout sh_c sh_kind sh_q sh_d omap2] in HI, HD.
+    pose proof (ravel_mzero 1 d) as RZ. rewrite Nat.mul_1_l in RZ. rewrite <- RZ in HD. clear RZ.
+    pose proof (bayes_rule_embed (S q) 1 d K (mzero 1 d) pred) as BE. rewrite Nat.mul_1_l in BE.
+    destruct (bayes_rule minv (S q) 1 d K (mzero 1 d) pred) as [[o1 u1]|] eqn:E1; [|discriminate].
+    destruct (bayes_rule minv (S q * d) d 1 (embed_cond (S q) 1 d K) (ravel 1 d (mzero 1 d)) (embed_normal (S q) d pred))
+      as [[o2 u2]|] eqn:E2; [|discriminate].
+    destruct (BE o1 u1 o2 u2 eq_refl eq_refl) as [Ho Hu]. subst o2 u2.
+    cbn in HI, HD. inversion HI; subst obs upd. inversion HD; subst obsD updD.
+    split; reflexivity.
   Qed.
 
   (* =================================================================
@@ -556,3 +678,18 @@ Proof.
   intros a b Ha Hb.
   destruct a as [|[|a]]; destruct b as [|[|b]]; try lia; vm_compute; reflexivity.
 Qed.
+
+(* the logistic-like field u_a' = u_a (1 - u_b) (a nonlinear, coupled problem), q = 2, d = 2, inexact initial
+   condition: one isotropic TS0 filter step and the dense step on the embedded state both exist *)
+Definition ex_ode : @odeP Qc :=
+  mkOde 1 [[(Q2Qc 1, [1; 0; 0]); (Q2Qc (-1), [1; 1; 0])]; [(Q2Qc (1#2), [0; 1; 0]); (Q2Qc (-1#2), [1; 1; 0])]].
+Definition ex_u0 : @normal Qc :=
+  mkN [[Q2Qc (1#2); Q2Qc (1#4)]; [Q2Qc (3#8); Q2Qc (1#16)]; [Q2Qc 0; Q2Qc 0]]
+      [[Q2Qc (1#64); Q2Qc 0; Q2Qc 0]; [Q2Qc 0; Q2Qc (1#64); Q2Qc 0]; [Q2Qc 0; Q2Qc 0; Q2Qc 1]].
+
+Example filter_step_hypotheses_satisfiable :
+  is_some (ts0_filter_step (mkShape Iso 2 2) ex_ode (Q2Qc 0) [Q2Qc 1] (Q2Qc (1#4)) (Q2Qc (1#4)) [ex_u0]) = true
+  /\ is_some (ts0_filter_step (mkShape Dense 2 2) ex_ode (Q2Qc 0) [Q2Qc 1; Q2Qc 1] (Q2Qc (1#4)) (Q2Qc (1#4))
+                              [embed_normal 3 2 ex_u0]) = true
+  /\ ode_k ex_ode <= 3.
+Proof. repeat split; try (vm_compute; reflexivity). simpl. lia. Qed.
